@@ -11,11 +11,13 @@ Definition show_dlv (d : dlv) : string := match d with Del o e => show_nat o ++ 
 Inductive case :=
 | CPub (os : list obs) (es : list nat)
 | CFilter (c : cfg) (dflt : nat) (qs : list (option nat * list nat))
-| CBuf (size : option nat) (es : list nat).
+| CBuf (size : option nat) (es : list nat)
+| CFHist (d0 : nat) (ops : list fop).
 
 Definition run_show (c : case) : string :=
   match c with
   | CPub os es => String.concat " " (map show_dlv (publish_all os es))
   | CFilter c d qs => String.concat " " (map (fun q => show_nat (level_for c d (snd q)) ++ show_bool (passes c d (fst q) (snd q))) qs)
   | CBuf size es => show_list show_nat (feed size es)
+  | CFHist d0 ops => String.concat " " (map (fun a => match a with ALevel l => show_nat l | APass b => show_bool b end) (frun (finit d0) ops))
   end.
